@@ -172,41 +172,25 @@ def run(ctx, rep):
     if wr is None:
         rep.lost("entry", "write_eh_frame_relocations")
         return
-    lets = hirq.let_map(wr["body"])
-    keep = ("output_pos", "input_pos", "next_input_pos", "next_output_pos", "section_address", "hdr_out", "index", "rel", "section_index")
-    st = [hirq.inlined(x, lets, depth=8, keep=keep) for x in hirq.statements(wr["body"])]
-    es = [x for x in st if x.startswith(("hdr_out = struct{", "(*hdr_out) = struct{"))]
-    rep.ob("entry", "one-store", len(es) == 1, f"{len(es)} store(s) of a header-table entry", wr["file"], wr["line"])
-    if es:
-        e = es[0]
-        fp = e.split("frame_ptr: ", 1)[1].split(", frame_info_ptr: ")[0]
-        fi = e.split(", frame_info_ptr: ", 1)[1]
-        rep.ob("entry", "frame_ptr",
-               fp.startswith("TryFrom::try_from((((section_address + opt_input_to_output(object.section_relax_deltas.get(section_index.0), (((object.object.symbol(index).st_value(LittleEndian) as i64) + rel.addend()) as u64))) as i64) - (layout.mem_address_of_built_in(EH_FRAME_HDR) as i64)))"),
-               f"frame_ptr = {fp[:230]}", wr["file"], wr["line"])
-        rep.ob("entry", "frame_info_ptr",
-               fi.startswith("TryFrom::try_from((((table_writer.eh_frame_start_address + (output_pos as u64)) as i64) - (layout.mem_address_of_built_in(EH_FRAME_HDR) as i64)))"),
-               f"frame_info_ptr = {fi[:200]}", wr["file"], wr["line"])
-        rep.ob("entry", "checked", fp.count(".context(") == 1 and fi.count(".context(") == 1, "both conversions are checked (error, not truncation)", wr["file"], wr["line"])
-    # the FDE's bytes are copied at the same position: SectionInfo.section_address for its relocations = output_pos + eh_frame_start_address
-    sa = None
-    for x in fold.walk(wr["body"]):
-        if x.get("e") == "struct":
-            for n, v in x["fields"]:
-                if n == "section_address":
-                    sa = hirq.inlined(v, lets, depth=4, keep=keep)
-    rep.ob("entry", "same-position", sa in ("((output_pos as u64) + table_writer.eh_frame_start_address)", "(table_writer.eh_frame_start_address + (output_pos as u64))"),
-           f"the FDE's own relocations use place base {sa}: the same address the table entry points to", wr["file"], wr["line"])
-    adv = [x for x in st if x.startswith("table_writer.eh_frame_start_address +=")]
-    rep.ob("entry", "base-advance", adv == ["table_writer.eh_frame_start_address += (output_pos as u64)"], f"after a section: {adv}", wr["file"], wr["line"])
-    rep.ob("entry", "pos-advance", "output_pos = next_output_pos" in st and "input_pos = next_input_pos" in st, "output_pos advances only for kept entries, input_pos always", wr["file"], wr["line"])
+    _entry_position_mir(rep, P, F)
 
     # ---- pairing (MIR)
     for b in [x for x in F.all_bodies if stable(x.key) == EW + "write_eh_frame_relocations" and x.d["kind"] != "Closure"][:1]:
         flow, cfg = P.flow(b), P.cfg(b)
-        keep_local = next((i for i in range(len(b.locals)) if b.local_name(i) == "should_keep"), None)
+        # the keep flag: the bool local that is only ever assigned constants (init false, set true per kept CIE/FDE) and is switched on
+        cands = []
+        for i, ty in enumerate(b.locals):
+            if ty.strip() != "bool" or i <= b.d["argc"] or b.local_name(i) is None:   # unnamed bools are compiler drop flags
+                continue
+            ds = flow.defs.get(i, [])
+            if len(ds) >= 3 and all(d[1] != "call" and not d[2] and d[3]["k"] == "use" and d[3]["a"][0] == "k" for d in ds) and \
+                    any(blk2["t"]["k"] == "switch" and blk2["t"]["d"][0] != "k" and ("param", None) != None and
+                        (blk2["t"]["d"][1] == [i, []] or any(d2[1] != "call" and d2[3]["k"] == "use" and d2[3]["a"][0] != "k" and d2[3]["a"][1] == [i, []]
+                                                             for d2 in flow.defs.get(blk2["t"]["d"][1][0], []))) for blk2 in b.blocks):
+                cands.append(i)
+        keep_local = cands[0] if len(cands) == 1 else next((i for i in range(len(b.locals)) if b.local_name(i) == "should_keep"), None)
         if keep_local is None:
-            rep.lost("pairing", "should_keep"); break
+            rep.lost("pairing", f"the keep flag (constant-assigned bool that is switched on; candidates {cands})"); break
         stores_true = []
         for bi, blk in enumerate(b.blocks):
             if blk.get("cleanup") or bi not in cfg.reach:
@@ -234,7 +218,7 @@ def run(ctx, rep):
                 t = b.blocks[sbk]["t"]
                 if t["k"] == "switch":
                     tr = expr_tree(P, b, t["d"], depth=4, expand_params=0)
-                    if tr[0] in ("phi", "alt") and tr[1] == "should_keep":
+                    if tr[0] in ("phi", "alt") and tr[1] == (b.local_name(keep_local) or f"_{keep_local}"):
                         for lab, v in switch_bool_labels(b, flow, cfg, sbk).items():
                             if v is False:
                                 drop_edges.add((sbk, lab))
@@ -395,3 +379,111 @@ def position_accounting(rep, P, F):
     late = sorted(t["l"] for bi, t in takes if bi in after and bi != sbi)
     rep.ob("position-accounting", "no-take-after-base-update", not late, "no bytes are taken once eh_frame_start_address was advanced" if not late else
            f"take_eh_frame_data at line(s) {late} runs after the base was advanced: those bytes are not accounted for", b.file, sst.get("l"))
+
+
+def _shape(b, flow, op, depth=0):
+    """Name-free structural tree of an operand: ('const', val, def) | ('field', [.fields]) | ('var', local) for multiply-assigned locals |
+    ('call', tail, [args]) | ('bin', op, a, b) - single-definition copies and casts are followed."""
+    if depth > 8:
+        return ("?",)
+    if op[0] == "k":
+        return ("const", op[1].get("val"), op[1].get("def"))
+    l, proj = op[1]
+    fields = [p for p in proj if p.startswith(".") and p not in (".0", ".1")]
+    if fields:
+        return ("field", fields)
+    ds = flow.defs.get(l, [])
+    if len(ds) != 1:
+        return ("var", l)
+    bi, si, _p, pl = ds[0]
+    if si == "call":
+        return ("call", (callee_key(pl["f"]) or "?").split("::")[-1], [_shape(b, flow, a, depth + 1) for a in pl["args"]])
+    if pl["k"] in ("use", "cast"):
+        return _shape(b, flow, pl["a"], depth)
+    if pl["k"] == "bin":
+        return ("bin", pl["op"].replace("WithOverflow", "").replace("Unchecked", ""), _shape(b, flow, pl["a"], depth + 1), _shape(b, flow, pl["b"], depth + 1))
+    if pl["k"] == "ref":
+        return ("ref",)
+    return ("?",)
+
+
+def _entry_position_mir(rep, P, F):
+    """frame_info_ptr and the FDE's own relocation base, structurally (no dependence on the names of locals or parameters)."""
+    from mir import field_stores
+    b = F.body("libwild::elf_writer::write_eh_frame_relocations")
+    if b is None:
+        rep.lost("entry", "write_eh_frame_relocations (MIR)")
+        return
+    flow = P.flow(b)
+    stores = field_stores(b, "eh_frame_start_address")
+    acc = None
+    if len(stores) == 1 and stores[0][1]["rv"]["k"] == "use":
+        sh = _shape(b, flow, stores[0][1]["rv"]["a"])
+        if sh[0] == "bin" and sh[1] == "Add":
+            for side in (sh[2], sh[3]):
+                if side[0] == "var":
+                    acc = side[1]
+
+    def is_base_plus_acc(t):
+        return t[0] == "bin" and t[1] == "Add" and {t[2][0], t[3][0]} == {"field", "var"} and \
+            any(x[0] == "field" and x[1] == [".eh_frame_start_address"] for x in (t[2], t[3])) and any(x == ("var", acc) for x in (t[2], t[3]))
+    rep.ob("entry", "base-advance", acc is not None, f"after a section the base is advanced by the position accumulator (local _{acc})", b.file, stores[0][1].get("l") if stores else b.line)
+    n_e = n_s = 0
+    for bi, blk in enumerate(b.blocks):
+        if blk.get("cleanup"):
+            continue
+        for st in blk["s"]:
+            if st["k"] != "assign" or st["rv"]["k"] != "agg":
+                continue
+            adt = str(st["rv"].get("adt") or "")
+            fields = st["rv"].get("fields") or []
+            if adt.endswith("EhFrameHdrEntry") and "frame_info_ptr" in fields:
+                n_e += 1
+                t = _shape(b, flow, st["rv"]["ops"][fields.index("frame_info_ptr")])
+                # branch(context(try_from(Sub(Add(base, acc), mem_address_of_built_in(_, EH_FRAME_HDR)))))
+                inner = t
+                checked = False
+                while inner[0] == "call" and inner[1] in ("branch", "context", "with_context", "map_err", "try_from", "try_into") and inner[2]:
+                    checked = checked or inner[1] in ("try_from", "try_into")
+                    inner = inner[2][0]
+                ok = inner[0] == "bin" and inner[1] == "Sub" and is_base_plus_acc(inner[2]) and inner[3][0] == "call" and inner[3][1] == "mem_address_of_built_in" \
+                    and any(a[0] == "const" and str(a[2] or "").endswith("output_section_id::EH_FRAME_HDR") for a in inner[3][2])
+                rep.ob("entry", "frame_info_ptr", ok and checked,
+                       "frame_info_ptr = checked((eh_frame_start_address + position) - address of .eh_frame_hdr)" if ok and checked else f"frame_info_ptr has shape {inner}", b.file, st.get("l"))
+            if adt.endswith("EhFrameHdrEntry") and "frame_ptr" in fields:
+                t = _shape(b, flow, st["rv"]["ops"][fields.index("frame_ptr")])
+                inner = t
+                checked = False
+                while inner[0] == "call" and inner[1] in ("branch", "context", "with_context", "map_err", "try_from", "try_into") and inner[2]:
+                    checked = checked or inner[1] in ("try_from", "try_into")
+                    inner = inner[2][0]
+
+                def calls_in(x, acc_=None):
+                    acc_ = [] if acc_ is None else acc_
+                    if isinstance(x, tuple):
+                        if x and x[0] == "call":
+                            acc_.append(x[1])
+                        for y in x:
+                            if isinstance(y, (tuple, list)):
+                                calls_in(tuple(y) if isinstance(y, list) else y, acc_)
+                    return acc_
+                ok = False
+                if inner[0] == "bin" and inner[1] == "Sub" and inner[3][0] == "call" and inner[3][1] == "mem_address_of_built_in" \
+                        and any(a_[0] == "const" and str(a_[2] or "").endswith("output_section_id::EH_FRAME_HDR") for a_ in inner[3][2]) and inner[2][0] == "bin" and inner[2][1] == "Add":
+                    lhs = inner[2]
+                    sides = (lhs[2], lhs[3])
+                    sec = [x for x in sides if "address" in calls_in(x) and "symbol_section" in calls_in(x) and "opt_input_to_output" not in calls_in(x)]
+                    off = [x for x in sides if x[0] == "call" and x[1] == "opt_input_to_output"]
+                    if sec and off:
+                        arg = off[0][2][-1]
+                        ok = arg[0] == "bin" and arg[1] == "Add" and {"st_value", "addend"} <= set(calls_in(arg))
+                rep.ob("entry", "frame_ptr", ok and checked,
+                       "frame_ptr = checked((address of the symbol's section + relaxation-adjusted (st_value + addend)) - address of .eh_frame_hdr)" if ok and checked else f"frame_ptr has shape {inner}",
+                       b.file, st.get("l"))
+            if adt.endswith("SectionInfo") and "section_address" in fields:
+                n_s += 1
+                t = _shape(b, flow, st["rv"]["ops"][fields.index("section_address")])
+                rep.ob("entry", "same-position", is_base_plus_acc(t),
+                       "the FDE's own relocations use place base eh_frame_start_address + position: the same address the table entry points to" if is_base_plus_acc(t) else f"section_address has shape {t}",
+                       b.file, st.get("l"))
+    rep.ob("entry", "mir-anchors", n_e == 1 and n_s >= 1, f"{n_e} table-entry construction(s), {n_s} SectionInfo construction(s)", b.file, b.line)
